@@ -11,22 +11,49 @@ fn main() {
     }
     let args = Args::parse(&argv[2..]);
     vh::util::install_panic_hook();
-    match argv[1].as_str() {
-        "hash-record" => vh::fam_hash::record(&args),
-        "hll-record" => vh::fam_hll::record(&args),
-        "theta-record" => vh::fam_theta::record(&args),
-        "fi-record" => vh::fam_fi::record(&args),
-        "cm-record" => vh::fam_cm::record(&args),
-        "bloom-record" => vh::fam_bloom::record(&args),
-        "cpc-record" => vh::fam_cpc::record(&args),
-        "td-record" => vh::fam_td::record(&args),
-        "td-replay" => vh::fam_td::replay(&args),
-        "hllv-record" => vh::fam_hllfmt::record(&args),
-        "ext-record" => vh::fam_ext::record(&args),
-        "size-record" => vh::fam_ext::record_sizes(&args),
-        "c14-worker" => vh::fam_c14::worker(&args),
-        "c14-record" => vh::fam_c14::record(&args),
-        "hllu-record" => vh::fam_hll::record_union(&args),
+    if argv[1] == "c14-worker" {
+        return vh::fam_c14::worker(&args);
+    }
+    // A panic that escapes every guarded call of a recorder: when it was raised inside the library
+    // under test it is data (a Panic event closes shard 0, which no specification accepts); a panic of
+    // the harness itself stays a tool error.
+    let cmd = argv[1].clone();
+    let r = vh::util::catch(std::panic::AssertUnwindSafe(|| dispatch(&cmd, &args)));
+    if let Err(e) = r {
+        let loc = e.split(": ").next().unwrap_or("").to_string();
+        let in_library = loc.contains("/datasketches/src/") || loc.starts_with("/rustc/") || loc.starts_with("library/");
+        match (in_library, args.get("out")) {
+            (true, Some(prefix)) => {
+                use std::io::Write;
+                let mut f = std::fs::OpenOptions::new().create(true).append(true).open(format!("{prefix}.0.ndjson")).expect("shard 0");
+                writeln!(f, "{}", serde_json::json!({"op":"Run","scn":format!("{cmd}-unguarded")})).unwrap();
+                writeln!(f, "{}", serde_json::json!({"op":"Panic","in":"recorder","key":loc,"msg":e})).unwrap();
+                println!("{}", serde_json::json!({"runs":1,"events":2,"unguarded_panic":e}));
+            }
+            _ => {
+                eprintln!("recorder panicked: {e}");
+                std::process::exit(101);
+            }
+        }
+    }
+}
+
+fn dispatch(cmd: &str, args: &Args) {
+    match cmd {
+        "hash-record" => vh::fam_hash::record(args),
+        "hll-record" => vh::fam_hll::record(args),
+        "theta-record" => vh::fam_theta::record(args),
+        "fi-record" => vh::fam_fi::record(args),
+        "cm-record" => vh::fam_cm::record(args),
+        "bloom-record" => vh::fam_bloom::record(args),
+        "cpc-record" => vh::fam_cpc::record(args),
+        "td-record" => vh::fam_td::record(args),
+        "td-replay" => vh::fam_td::replay(args),
+        "hllv-record" => vh::fam_hllfmt::record(args),
+        "ext-record" => vh::fam_ext::record(args),
+        "size-record" => vh::fam_ext::record_sizes(args),
+        "c14-record" => vh::fam_c14::record(args),
+        "hllu-record" => vh::fam_hll::record_union(args),
         c => {
             eprintln!("unknown command {c}");
             std::process::exit(2);
